@@ -592,7 +592,7 @@ pub fn run(tier: Tier) -> i32 {
   }
   sweep(&mut run, &cases, "text_escapes");
   // (4) byte strings
-  let hex_items = ["01", "aF", "Ff", "0", "g", " ", "\n", ";c\n", "; 0f\n", "\t"];
+  let hex_items = ["01", "aF", "Ff", "0", "a", "g", "+", "-", "x", " ", "\n", ";c\n", "; 0f\n", "\t"];
   let b64_items = ["AQ", "AQI", "AQID", "A", "-_", "+/", "-w", "_w", "=", "==", " ", "\n", ";c\n", "!", "B", "R"];
   let mut cases = vec![];
   let mut gen = |items: &[&str], n: usize, f: &dyn Fn(&str) -> (String, Ref)| {
